@@ -27,6 +27,7 @@ type vC17Cmd struct {
 	Slow bool     `json:"slow,omitempty"` // add: the joiner's FSM is held back (entries stay queued) while it waits for sync
 	Lag  int      `json:"lag,omitempty"`  // add: the joiner RECEIVES only a prefix of the log while it waits for sync: 1 nothing, 2 one entry, 3 half of what precedes its own add entry, 4 all but its own add entry
 	Pin  *vC01Pin `json:"pin,omitempty"`  // pin unpin
+	Kind string   `json:"kind,omitempty"` // stale: "rm" (a peer is added while a follower is down; RmPeer of it at that follower, restarted on its stale configuration) or "add" (a peer is removed meanwhile; AddPeer of it there)
 }
 
 type vC17Case struct {
@@ -222,6 +223,27 @@ func vC17GenLag(r *vRand, lag int) vC17Case {
 	c.Cmds = append(c.Cmds, vC17Cmd{Op: "pin", Node: r.intn(3), Pin: vC01GenPin(r, ncids, 0, false)})
 	if r.chance(50) {
 		c.Cmds = append(c.Cmds, vC17Cmd{Op: "add", Node: r.intn(3), Peer: c.N0 + 1, Lag: 1 + r.intn(4)})
+	}
+	c.Cmds = append(c.Cmds, vC17Cmd{Op: "sync"})
+	return c
+}
+
+// the stale-member shape: a follower is stopped (its stores kept), the membership changes without it, it is started again and -
+// before it has received anything new: its own Peers() is the old peerset - the opposite change is asked of it
+func vC17GenStale(r *vRand, kind string) vC17Case {
+	c := vC17Case{N0: 3, Trail: 64}
+	ncids := 3
+	for i := 0; i < 1+r.intn(3); i++ {
+		c.Cmds = append(c.Cmds, vC17Cmd{Op: "pin", Node: r.intn(3), Pin: vC01GenPin(r, ncids, 0, false)})
+	}
+	if kind == "add" || r.chance(30) {
+		c.Cmds = append(c.Cmds, vC17Cmd{Op: "add", Node: r.intn(3), Peer: 3}) // four members: one can be removed while another is down
+	}
+	c.Cmds = append(c.Cmds, vC17Cmd{Op: "stale", Node: r.intn(3), Peer: r.intn(3), Kind: kind})
+	c.Cmds = append(c.Cmds, vC17Cmd{Op: "sync"})
+	c.Cmds = append(c.Cmds, vC17Cmd{Op: "pin", Node: r.intn(3), Pin: vC01GenPin(r, ncids, 0, false)})
+	if r.chance(40) {
+		c.Cmds = append(c.Cmds, vC17Cmd{Op: "stale", Node: r.intn(3), Peer: r.intn(3), Kind: []string{"rm", "add"}[r.intn(2)]})
 	}
 	c.Cmds = append(c.Cmds, vC17Cmd{Op: "sync"})
 	return c
@@ -611,6 +633,169 @@ func vC17Run(c vC17Case) (res vC17Result) {
 			if was && len(before) == 1 {
 				res.stats["rm_last"]++
 			}
+		case "stale":
+			if !rig.quiesce(10 * time.Second) {
+				continue
+			}
+			ld := rig.leader(5 * time.Second)
+			var fol []*vC01Node
+			for _, n := range rig.liveMembers() {
+				if n != ld {
+					fol = append(fol, n)
+				}
+			}
+			before, okb := peersAfter()
+			need := 2 // followers: the cluster keeps its quorum with one of them down
+			if cmd.Kind == "add" {
+				need = 3 // and with another one removed meanwhile
+			}
+			if ld == nil || !okb || len(fol) < need || len(before) != len(fol)+1 {
+				continue
+			}
+			nd := cmd.Node
+			if nd < 0 {
+				nd = 0
+			}
+			b := fol[nd%len(fol)]
+			res.stats["stale_"+cmd.Kind]++
+			rig.stop(b) // its stores are kept: it will come back with the configuration it has now
+			var x *vC01Node
+			if cmd.Kind == "add" {
+				// a member is removed while b is down
+				var cand []*vC01Node
+				for _, n := range fol {
+					if n != b {
+						cand = append(cand, n)
+					}
+				}
+				pi := cmd.Peer
+				if pi < 0 {
+					pi = 0
+				}
+				x = cand[pi%len(cand)]
+				err := ld.cc.RmPeer(ctx, x.id)
+				after, oka := peersAfter()
+				if !oka {
+					res.skipped = "no leader after RmPeer (stale)"
+					return
+				}
+				landed := !vC17Has(after, x.idx)
+				xs = append(xs, vC17X{Kind: "rm", Peer: x.idx, Err: err != nil, Landed: landed})
+				res.stats["rm"]++
+				if landed {
+					rig.stop(x)
+					x.removed = true
+				} else {
+					x = nil
+				}
+			} else {
+				// a new peer is admitted while b is down
+				for _, m := range rig.nodes {
+					if !m.started {
+						x = m
+						break
+					}
+				}
+				if x != nil {
+					if err := rig.start(x); err != nil {
+						res.skipped = "start joiner (stale): " + err.Error()
+						return
+					}
+					err := ld.cc.AddPeer(ctx, x.id)
+					idxAtReturn := rig.maxIdx()
+					after, oka := peersAfter()
+					if !oka {
+						res.skipped = "no leader after AddPeer (stale)"
+						return
+					}
+					landed := vC17Has(after, x.idx)
+					xs = append(xs, vC17X{Kind: "add", Peer: x.idx, Err: err != nil, Landed: landed})
+					res.stats["add"]++
+					if landed && err == nil {
+						if werr := x.cc.WaitForSync(ctx); werr == nil {
+							rig.observeReady(x, idxAtReturn)
+							ps, ok := vC17Peers(rig, x)
+							xs = append(xs, vC17X{Kind: "ready", Node: x.idx, Self: ok && vC17Has(ps, x.idx)})
+							res.stats["ready"]++
+						}
+					}
+					if !landed {
+						rig.stop(x)
+						x.removed = true
+						x = nil
+					}
+				}
+			}
+			// b comes back behind a gate: heartbeats reach it (it knows the leader), no entry does: its Peers() is the old peerset
+			var gate *vC17GateTrans
+			if x != nil {
+				lim, _ := b.logs.LastIndex()
+				rig.wrapTrans = func(n *vC01Node, t *hraft.InmemTransport) hraft.Transport {
+					if n != b {
+						return t
+					}
+					gate = vC17NewGate(t, lim)
+					gates = append(gates, gate)
+					return gate
+				}
+			}
+			err := rig.start(b)
+			rig.wrapTrans = nil
+			if err != nil {
+				res.skipped = "restart (stale): " + err.Error()
+				return
+			}
+			if x == nil || gate == nil {
+				continue
+			}
+			for dl := time.Now().Add(3 * time.Second); b.raft.Leader() == "" && time.Now().Before(dl); {
+				time.Sleep(3 * time.Millisecond)
+			}
+			if view, ok := vC17Peers(rig, b); ok && vC17Has(view, x.idx) == (cmd.Kind == "add") {
+				res.stats["stale_view_confirmed"]++ // b still lists the removed peer / does not list the added one
+			}
+			done := make(chan error, 1)
+			go func() {
+				if cmd.Kind == "add" {
+					done <- b.cc.AddPeer(ctx, x.id)
+				} else {
+					done <- b.cc.RmPeer(ctx, x.id)
+				}
+			}()
+			var cerr error
+			select {
+			case cerr = <-done:
+			case <-time.After(1500 * time.Millisecond):
+				// the change may need b itself for its quorum: it is let through
+				gate.setLimit(vC17GateOpen)
+				cerr = <-done
+			}
+			gate.setLimit(vC17GateOpen)
+			after, oka := peersAfter()
+			if !oka {
+				res.skipped = "no leader after the call at the stale member"
+				return
+			}
+			if cmd.Kind == "add" {
+				xs = append(xs, vC17X{Kind: "add", Peer: x.idx, Err: cerr != nil, Landed: vC17Has(after, x.idx)})
+				res.stats["add"]++
+			} else {
+				landed := !vC17Has(after, x.idx)
+				xs = append(xs, vC17X{Kind: "rm", Peer: x.idx, Err: cerr != nil, Landed: landed})
+				res.stats["rm"]++
+				if landed {
+					rig.stop(x)
+					x.removed = true
+				}
+			}
+			if cerr != nil {
+				res.stats["stale_call_err"]++
+			}
+			for _, n := range rig.liveMembers() {
+				if ps, ok := vC17Peers(rig, n); ok {
+					xs = append(xs, vC17X{Kind: "peers", Node: n.idx, Peers: ps})
+				}
+			}
 		case "snap":
 			if n := resolve(cmd.Node); n != nil {
 				n.cc.raft.Snapshot()
@@ -712,7 +897,9 @@ func TestVerifC17(t *testing.T) {
 			period = 24 // each lagging join costs its 1.5 s of bounded waiting
 		}
 		for i := 0; i < n; i++ {
-			if i%period == period-1 {
+			if i%period == period/2-1 {
+				cases = append(cases, vC17GenStale(r, []string{"rm", "add"}[(i/period)%2])) // boundary stream: the stale member
+			} else if i%period == period-1 {
 				cases = append(cases, vC17GenLag(r, 1+(i/period)%4)) // boundary stream: the lagging joiner, every amount of lag in turn
 			} else {
 				cases = append(cases, vC17Gen(r))
